@@ -65,6 +65,50 @@ def aliasing(ctx, label, key, want):
                    {"key": label, "kid": k.kid, "expected": want}, f"alias:kid:{key.key_type}")
 
 
+def kids_in_sets(ctx, pop):
+    """A kid that is present is never overwritten - also not by putting the key into a key set next to other keys:
+    sets whose members share a caller-supplied kid (a rotation label), mix given and absent kids, or repeat one key;
+    built with KeySet([...]) and KeySet.import_key_set, then exported and re-imported."""
+    from joserfc.jwk import KeySet
+    rng = ctx.rng
+    keys = [k for _, k in pop]
+    for _ in range(12 if ctx.tier == "quick" else 120):
+        chosen = rng.sample(keys, min(len(keys), rng.randrange(2, 5)))
+        mode = rng.choice(["shared", "shared", "mixed", "distinct", "empty-string"])
+        given = []
+        members = []
+        for i, k in enumerate(chosen):
+            d = k.as_dict(private=True) if k.is_private else k.as_dict()
+            d.pop("kid", None)
+            kid = {"shared": "2026-09", "distinct": f"kid-{i}", "mixed": ("2026-09" if i % 2 == 0 else None), "empty-string": ("" if i == 0 else "2026-09")}[mode]
+            if kid is not None:
+                d["kid"] = kid
+            given.append(kid)
+            members.append((type(k), d))
+        for how in ("constructor", "import_key_set"):
+            try:
+                if how == "constructor":
+                    ks = KeySet([cls.import_key(dict(d)) for cls, d in members])
+                else:
+                    ks = KeySet.import_key_set({"keys": [dict(d) for _, d in members]})
+            except Exception as e:  # noqa: BLE001
+                ctx.report(f"building a key set ({mode}, {how}) failed: {err_name(e)}", {"kids": given}, f"kid:set:{mode}:failed")
+                continue
+            ctx.count("kids-in-sets", (mode, how, repr(given), tuple(type(k).__name__ for k in chosen)), True, f"{mode}:{how}")
+            got = [k.kid for k in ks.keys]
+            exported = [e.get("kid") for e in ks.as_dict(private=False)["keys"]] if all(k.key_type != "oct" for k in ks.keys) else got
+            for g, have, exp, k in zip(given, got, exported, ks.keys):
+                if g:                                   # a kid that was present (and truthy): untouched
+                    if have != g or exp != g:
+                        ctx.report("a caller-supplied kid was overwritten when the key was put into a key set",
+                                   {"mode": mode, "how": how, "given": given, "kids_in_set": got, "kids_exported": exported}, f"kid:set:{mode}:overwritten")
+                        break
+                elif g is None and have != k.thumbprint():
+                    ctx.report("the kid assigned inside a key set is not the thumbprint", {"mode": mode, "how": how, "given": given, "kids_in_set": got},
+                               f"kid:set:{mode}:not-thumbprint")
+                    break
+
+
 def run(ctx):
     from joserfc.jwk import KeySet, JWKRegistry
     pop = KC.population(ctx)
@@ -127,6 +171,7 @@ def run(ctx):
         ctx.count("model", ln[:160], True)
         if mo != impl:
             ctx.disagreements.append({"suite": ln.split()[0], "request": ln[:300], "model": repr(mo)[:300], "impl": repr(impl)[:300]})
+    kids_in_sets(ctx, pop)
     # RFC 7638 section 3.1 example
     from joserfc.jwk import RSAKey
     ex = {"kty": "RSA", "n": "0vx7agoebGcQSuuPiLJXZptN9nndrQmbXEps2aiAFbWhM78LhWx4cbbfAAtVT86zwu1RK7aPFFxuhDR1L6tSoc_BJECPebWKRXjBZCiFV4n3oknjhMstn64tZ_2W-5JsGY4Hc5n9yBXArwl93lqt7_RN5w6Cf0h4QyQ5v-65YGjQR0_FDW2QvzqY368QQMicAtaSqzs8KJZgnYb9c7d0zgdAZHzu6qMQvRL5hajrn1n91CbOpbISD08qNLyrdkt-bFTWhAI4vMQFh6WeZu0fM4lFd2NcRwr3XPksINHaQ-G_xBniIqbw0Ls1jF44-csFCur-kEgU8awapJzKnqDKgw",
